@@ -2,7 +2,7 @@
  * Kani obligations: the trace's concrete values (kani --concrete-playback=print) are stored in the replay file.
  * Verus obligations: executable mirrors of the contracts (crate /verif/replay, linked against a scratch copy of
    /repo's working tree) are searched over a small exhaustive domain.  Never decides a pass."""
-import os, json, subprocess, time
+import os, json, subprocess, time, shutil
 from vlib import VERIF, REPO, WORK
 import kanilib
 
@@ -26,6 +26,29 @@ def build_mirror():
     return os.path.join(RTARGET, "release", "mirror"), ""
 
 
+def build_frag_mirror(name, unit, main_rs):
+    """native build of a fragment lifted by vx (plain unit) plus a sweep driver kept in /verif/replay_frag"""
+    from vlib import gen_unit
+    d = os.path.join(WORK, "fragmirror", name)
+    os.makedirs(os.path.join(d, "src"), exist_ok=True)
+    gen = gen_unit(unit, None, outdir=os.path.join(WORK, "gen", "fragmirror"), vac=False)
+    if gen["rc"] != 0:
+        return None, "extraction: " + gen["out"].strip()[-300:]
+    with open(os.path.join(d, "Cargo.toml"), "w") as f:
+        f.write(f'[package]\nname = "fragmirror"\nversion = "0.0.0"\nedition = "2021"\n[lib]\npath = "src/lib.rs"\n[[bin]]\nname = "{name}_mirror"\npath = "src/main.rs"\n[workspace]\n')
+    with open(os.path.join(d, "src", "lib.rs"), "w") as f:
+        f.write("#![allow(unused)]\n" + open(gen["rs"]).read())
+    shutil.copyfile(os.path.join(VERIF, "replay_frag", main_rs), os.path.join(d, "src", "main.rs"))
+    env = dict(os.environ, CARGO_NET_OFFLINE="true", CARGO_TARGET_DIR=os.path.join(d, "target"))
+    p = subprocess.run(["cargo", "build", "--release", "--offline"], cwd=d, env=env, capture_output=True, text=True)
+    if p.returncode != 0:
+        return None, "fragment mirror does not build against this tree: " + p.stderr[-400:]
+    return os.path.join(d, "target", "release", f"{name}_mirror"), ""
+
+
+FRAG_MIRRORS = {"repeat": ("repeatfrag_k", "repeat_main.rs")}
+
+
 def mirror_targets(prop, failing):
     """which mirror sweeps to run for the failed obligations"""
     t = set()
@@ -39,7 +62,7 @@ def mirror_targets(prop, failing):
             t.add("aln")
         if fn.startswith("IdxCheck") or fn == "Iterator::next":
             t.add("idx")
-        if fn.startswith("repeat"):
+        if fn.startswith("RefSka::new.repeat_coords"):
             t.add("repeat")
     return sorted(t)
 
@@ -62,13 +85,21 @@ def search(prop, failing, kres, tier):
     targets = mirror_targets(prop, failing)
     if not targets:
         return out
-    binp, err = build_mirror()
-    if not binp:
+    main_targets = [t for t in targets if t not in FRAG_MIRRORS]
+    binp, err = (build_mirror() if main_targets else (None, ""))
+    if main_targets and not binp:
         out["sweeps"].append({"error": err})
-        return out
     for t in targets:
+        tb = binp
+        if t in FRAG_MIRRORS:
+            tb, ferr = build_frag_mirror(t, *FRAG_MIRRORS[t])
+            if not tb:
+                out["sweeps"].append({"target": t, "error": ferr})
+                continue
+        if not tb:
+            continue
         try:
-            p = subprocess.run([binp, "sweep", t, "thorough"], capture_output=True, text=True, timeout=900)  # the sweeps take seconds: always the full domain
+            p = subprocess.run([tb, "sweep", t, "thorough"], capture_output=True, text=True, timeout=900)  # the sweeps take seconds: always the full domain
         except subprocess.TimeoutExpired:
             out["sweeps"].append({"target": t, "error": "timeout"})
             continue
@@ -81,7 +112,7 @@ def search(prop, failing, kres, tier):
     return out
 
 
-MIRRORS_OF = {"C01": ["kmer"], "C02": ["kmer"], "C12": ["kmer"], "C16": ["kmer"], "C04": ["aln", "tables"], "C05": ["idx"]}
+MIRRORS_OF = {"C01": ["kmer"], "C02": ["kmer"], "C12": ["kmer"], "C16": ["kmer"], "C04": ["aln", "tables", "repeat"], "C05": ["idx"]}
 
 
 def sweep_all(prop, cfg):
@@ -93,10 +124,17 @@ def sweep_all(prop, cfg):
     binp, err = build_mirror()
     if not binp:
         out["sweeps"].append({"error": err})
-        return out
     for t in targets:
+        tb = binp
+        if t in FRAG_MIRRORS:
+            tb, ferr = build_frag_mirror(t, *FRAG_MIRRORS[t])
+            if not tb:
+                out["sweeps"].append({"target": t, "error": ferr})
+                continue
+        if not tb:
+            continue
         try:
-            p = subprocess.run([binp, "sweep", t, "thorough"], capture_output=True, text=True, timeout=1800)
+            p = subprocess.run([tb, "sweep", t, "thorough"], capture_output=True, text=True, timeout=1800)
         except subprocess.TimeoutExpired:
             out["sweeps"].append({"target": t, "error": "timeout"})
             continue
@@ -128,11 +166,16 @@ def run_replay_file(prop, path):
         print(inp["unit_test"])
         print(f"VIOLATION property={prop} replay={path}")
         return 1
-    binp, err = build_mirror()
+    if inp["target"] in FRAG_MIRRORS:
+        binp, err = build_frag_mirror(inp["target"], *FRAG_MIRRORS[inp["target"]])
+        args = [binp, "one", json.dumps(inp["input"], separators=(",", ":"))]
+    else:
+        binp, err = build_mirror()
+        args = [binp, "one", inp["target"], json.dumps(inp["input"], separators=(",", ":"))]
     if not binp:
         print(f"UNDECIDED property={prop} reason={err}")
         return 2
-    p = subprocess.run([binp, "one", inp["target"], json.dumps(inp["input"], separators=(",", ":"))], capture_output=True, text=True)
+    p = subprocess.run(args, capture_output=True, text=True)
     print(p.stdout.strip())
     if p.returncode == 1:
         print(f"VIOLATION property={prop} replay={path}")
